@@ -458,7 +458,14 @@ def enclosing_tests(node, stop):
 
 
 def rng_guarded(scope, fi, call):
-    tests = enclosing_tests(call, fi.node)
+    def positive(tests_):
+        out = []
+        for t_, truth_ in tests_:
+            while isinstance(t_, ast.UnaryOp) and isinstance(t_.op, ast.Not):
+                t_, truth_ = t_.operand, not truth_          # the else branch of `if not flag` runs when the flag is set
+            out.append((t_, truth_))
+        return out
+    tests = positive(enclosing_tests(call, fi.node))
     flag = None
     for t, truth in tests:
         if isinstance(t, ast.Name) and t.id in fi.params and truth:
@@ -483,7 +490,7 @@ def rng_guarded(scope, fi, call):
                 if isinstance(val, ast.Constant) and not val.value:
                     continue
                 n_callers += 1
-                guards = enclosing_tests(c, g.node)
+                guards = positive(enclosing_tests(c, g.node))
                 ok = any(truth and ('is int' in U(t) or 'isinstance' in U(t) and 'int' in U(t)) for t, truth in guards)
                 if not ok:
                     bad.append('%s: `%s`' % (g.qualname, U(c)[:50]))
